@@ -710,7 +710,9 @@ pub fn add_trailing_blanks(text: &str, rng: &mut Rng) -> String {
     for line in text.split_inclusive('\n') {
         if rng.chance(0.3) && line.ends_with('\n') {
             out.push_str(&line[..line.len() - 1]);
-            out.push_str(*rng.pick(&[" ", "  ", "\t"]));
+            // also white space outside ASCII (ideographic space, no-break space, em space): the
+            // lexer treats it as text, "trailing blank" code may or may not
+            out.push_str(*rng.pick(&[" ", "  ", "\t", " ", "\u{3000}", "\u{a0}", "\u{2003}", " \u{3000}"]));
             out.push('\n');
         } else {
             out.push_str(line);
